@@ -19,6 +19,7 @@ pub mod c18;
 pub mod c19;
 pub mod c20;
 pub mod tools_sm2;
+pub mod zuc_state;
 
 use crate::mon::Ctx;
 
